@@ -133,7 +133,8 @@ def explore(rep, cases, oracle, tier, corr_label):
             oracle(R, findings)
             for key, what in findings:
                 rep.finding(key, what, {"kind": "format", "label": case.label, "lang": case.lang, "cfg": case.cfg_text,
-                                        "cfg_path": case.cfg_path, "input_b64": common.b64(case.data)})
+                                        "cfg_path": case.cfg_path, "input_b64": common.b64(case.data),
+                                        "lines": [[l.depth, l.nsb, l.kind, l.toks] for l in getattr(case, "lines", None) or []] or None})
     import shutil
     shutil.rmtree(base, ignore_errors=True)
     return corr
@@ -155,6 +156,8 @@ def finish(rep, build, pid, corr, what_corr, explanation, assumptions):
 def replay_format(rp, oracle):
     with tempfile.TemporaryDirectory(prefix="rr_", dir=common.WORK) as wd:
         case = Case(rp.get("label", "replay"), rp["lang"], rp.get("cfg"), common.unb64(rp["input_b64"]), cfg_path=rp.get("cfg_path"))
+        if rp.get("lines"):
+            case.lines = [progs.Line(d, t, kind=k, nsb=n) for d, n, k, t in rp["lines"]]
         R = run_case(wd, case)
         print("rc", R.rc)
         if R.fin is None:
